@@ -12,14 +12,14 @@ TREE = json.load(open(os.path.join(SPEC, "tree_model.json")))
 
 
 def cfg(writers, closers=None, qsize=2, until=True, serve="pre", reads=0, maxfaults=0,
-        maxpolls=10, nsenders=None, fixclosed=None, fixdrain=None, pcancel=False, swallow=False, trackbufs=False, clone=True, recyclelate=True):
+        maxpolls=10, nsenders=None, fixclosed=None, fixdrain=None, pcancel=False, swallow=False, trackbufs=False, clone=True, recyclelate=True, readcloses=()):
     """writers: {"W1": [("W1","bg"), ...]}; closers: {"C1": "e1"}"""
     closers = closers or {}
     nops = sum(sum(int(o[2]) if len(o) > 2 else 1 for o in v) for v in writers.values())
     return {
         "writers": {w: [list(o) for o in ops] for w, ops in writers.items()},
         "closers": dict(closers), "qsize": qsize, "until": until, "serve": serve, "reads": reads,
-        "maxfaults": maxfaults, "maxpolls": maxpolls, "pcancel": pcancel, "swallow": swallow, "trackbufs": trackbufs, "clone": clone, "recyclelate": recyclelate,
+        "maxfaults": maxfaults, "maxpolls": maxpolls, "pcancel": pcancel, "swallow": swallow, "trackbufs": trackbufs, "clone": clone, "recyclelate": recyclelate, "readcloses": sorted(readcloses),
         "nsenders": nsenders if nsenders is not None else nops + 1,
         "fixclosed": TREE["FixClosed"] if fixclosed is None else fixclosed,
         "fixdrain": TREE["FixDrain"] if fixdrain is None else fixdrain,
@@ -43,6 +43,7 @@ def tla_consts(c, maxpolls=None):
         "Closers": set(c["closers"].keys()),
         "CloseArg": dict(c["closers"]),
         "SenderIds": senders(c),
+        "ReadCloses": set(c.get("readcloses", [])),
         "QSize": c["qsize"], "Until": c["until"],
         "MaxPolls": c["maxpolls"] if maxpolls is None else maxpolls,
         "MaxFaults": c["maxfaults"], "Serve": c["serve"], "Reads": c["reads"],
@@ -74,7 +75,7 @@ def go_case(c, cid, rnd, schedule=None, rand=None, sizes=None, props=None, notra
         "closers": [{"name": k, "arg": v} for k, v in sorted(c["closers"].items())],
         "serve": c["serve"], "reads": c["reads"], "max_faults": c["maxfaults"],
         "senders": senders(c), "seed": rnd.randrange(1, 1 << 30), "max_steps": max_steps,
-        "no_trace": notrace, "codec": ("delim" if codec is True else (codec or "")), "swallow": c.get("swallow", False), "scribble": c.get("trackbufs", False),
+        "no_trace": notrace, "codec": ("delim" if codec is True else (codec or "")), "swallow": c.get("swallow", False), "scribble": c.get("trackbufs", False), "read_closes": list(c.get("readcloses", [])),
     }
     if schedule is not None:
         case["schedule"] = schedule
